@@ -379,6 +379,10 @@ def check_inbreeding(rep, prog, m):
 
 
 def check_dispatch(rep, prog, m):
+    """which implementation from_phi / from_phi_inbreeding select, and with which arguments, for every number of dimensions and
+    every combination of options: decided by finite-domain abstract execution (sa/miniexec.py), so that the way the selection is
+    written (if/elif chain, table of routines, helper) does not matter"""
+    from sa import miniexec as mx
     rel = m.rel
     fp = prog.func(SM, 'Spectrum.from_phi')
     rep.saw_function(rel + ':Spectrum.from_phi')
@@ -388,51 +392,171 @@ def check_dispatch(rep, prog, m):
     fi = prog.func(SM, 'Spectrum.from_phi_inbreeding')
     generic.rule_name(rep, prog, m, fi)
     generic.rule_def(rep, m, fi)
-    for fn, maxd in ((fp, 5), (fi, 3)):
-        q = fn._qualname
-        # top-level dispatch chain on phi.ndim
-        node = next((n for n in fn.body if isinstance(n, ast.If) and 'phi.ndim ==' in ast.unparse(n.test) and 'len(' not in ast.unparse(n.test)), None)
-        dims = {}
-        final_else = None
-        while node is not None:
-            d = node.test.comparators[0].value if isinstance(node.test, ast.Compare) and isinstance(node.test.comparators[0], ast.Constant) else None
-            dims[d] = node.body
-            if len(node.orelse) == 1 and isinstance(node.orelse[0], ast.If):
-                node = node.orelse[0]
-            else:
-                final_else = node.orelse
-                node = None
-        rep.ob('R-EXH', '%s dimensions' % q, sorted(dims) == list(range(1, maxd + 1)) and bool(final_else) and any(isinstance(x, ast.Raise) for x in final_else),
-               'arms for ndim %s; else raises: %s' % (sorted(dims), bool(final_else) and any(isinstance(x, ast.Raise) for x in final_else)), rel, fn.lineno, what='every dimension 1..%d has an arm, others raise' % maxd)
-        for d, body in sorted(dims.items()):
-            for c in [c for st in body for c in ast.walk(st) if isinstance(c, ast.Call) and (dotted(c.func) or '').startswith('Spectrum._from_phi_')]:
-                callee = prog.resolve_call(m, c, scope=fn)
-                if callee is None:
-                    rep.ob('R-NAME', '%s arm %dD' % (q, d), False, '%s does not exist' % dotted(c.func), rel, c.lineno, what='implementation exists')
-                    continue
-                md = re.search(r'_from_phi_(\d)D_', callee.name)
-                b, problems = bind_call(callee, c)
-                ns = ['n'] if d == 1 else NS[:d]
-                okb = not problems and int(md.group(1)) == d
-                for a in range(d):
-                    okb = okb and ast.unparse(b.get(ns[a] if ns[a] in b else NS[a], ast.Constant(value=None))) == 'ns[%d]' % a and ast.unparse(b.get(G[a], ast.Constant(value=None))) == 'xxs[%d]' % a
-                    if 'F' + AX[a] in b:
-                        okb = okb and ast.unparse(b['F' + AX[a]]) == 'Fs[%d]' % a and ast.unparse(b.get('ploidy' + AX[a])) == 'ploidys[%d]' % a
-                for k in ('phi', 'mask_corners', 'het_ascertained', 'admix_props'):
-                    if k in b:
-                        okb = okb and ast.unparse(b[k]) == k
-                rep.ob('R-IDX', '%s arm %dD -> %s' % (q, d, callee.name), okb, ast.unparse(c)[:150].replace('\n', ' '), rel, c.lineno, what='sizes ns[k], grids xxs[k] (and F, ploidy) forwarded in axis order to the %dD implementation' % d)
-        t = ast.unparse(fn)
-        oke = 'fs.pop_ids = pop_ids' in t and 'fs.extrap_x = xxs[0][1]' in t
-        rets = [ast.unparse(n.value) for n in own_nodes(fn) if isinstance(n, ast.Return)]
-        rep.ob('R-FLOW', '%s labels' % q, oke and rets[-1] == 'fs', 'pop_ids and extrap_x = xxs[0][1] set before returning fs', rel, fn.lineno, what='extrap_x and labels recorded on the returning path')
-    # options of from_phi: analytic only without het/admix/force_direct; admix and het exclusive
-    t = ast.unparse(fp)
-    okx = t.count('not het_ascertained and (not admix_props) and (not force_direct)') == 4 and 'not het_ascertained and (not force_direct)' in t
-    rep.ob('R-EXH', 'from_phi options', okx, 'semi-analytic path only without het_ascertained / admix_props / force_direct', rel, fp.lineno, what='option dispatch')
-    okz = 'np.all(np.asarray(Fs) == 0)' in ast.unparse(fi) and 'return Spectrum.from_phi(phi, ns, xxs, mask_corners=mask_corners, pop_ids=pop_ids, admix_props=admix_props, het_ascertained=het_ascertained, force_direct=force_direct)' in ast.unparse(fi)
-    rep.ob('R-DOM', 'from_phi_inbreeding F=0', okz, 'all F == 0 delegates to from_phi with all options forwarded', rel, fi.lineno, what='F -> 0 reduces to plain sampling')
+    known = set(m.funcs)
+    from sa import alpha
+    table_known = alpha.load_table().get('__params__', {}).get(rel)
+    if table_known is not None:
+        known = set(table_known)
 
+    def hook(name, args, kwargs):
+        if name in ('np.minimum', 'numpy.minimum') and args and isinstance(args[0], mx.Sym):
+            return mx.Sym(args[0].text, length=args[0].length)        # clipping keeps the axis order of Fs
+        return NotImplemented
+
+    def run(fn, args):
+        it = mx.Interp(prog, m, call_hook=hook, known_functions=known)
+        return it.run(fn, args)
+
+    def impl_calls(events):
+        return [e for e in events if e[0] == 'call' and e[1].startswith('Spectrum._from_phi_')]
+
+    def bound_args(callee_q, ev):
+        callee = prog.func(SM, callee_q) if prog.has_func(SM, callee_q) else None
+        if callee is None:
+            return None
+        it = mx.Interp(prog, m)
+        it.path = mx.Path([])
+        try:
+            return {k: mx.show(v) for k, v in it.bind(callee, ev[2], ev[3]).items()}
+        except mx.Undecidable:
+            return None
+
+    def tail_ok(outcome, events, call_text):
+        sets = {e[2]: mx.show(e[3]) for e in events if e[0] == 'setattr' and e[1] == call_text}
+        return outcome[0] == 'return' and mx.show(outcome[1]) == call_text and sets.get('pop_ids') == 'pop_ids' and sets.get('extrap_x') == 'xxs[0][1]'
+
+    # ---- from_phi ----
+    bad_tail = []
+    for d in range(1, 7):
+        problems = []
+        n_combo = 0
+        for het in (None, 'xx'):
+            for admix in (False, True):
+                for force in (False, True):
+                    n_combo += 1
+                    args = {'phi': mx.Sym('phi', attrs={'ndim': d}), 'ns': mx.Sym('ns', length=d), 'xxs': mx.Sym('xxs', length=d),
+                            'mask_corners': mx.Sym('mask_corners'), 'pop_ids': mx.Sym('pop_ids'),
+                            'admix_props': mx.Sym('admix_props', truth=True) if admix else None, 'het_ascertained': het, 'force_direct': force}
+                    combo = 'het_ascertained=%r admix_props=%s force_direct=%s' % (het, 'set' if admix else None, force)
+                    # the reference semantics (confirmed on the pinned tree)
+                    if admix and het:
+                        want = ('raise', 'NotImplementedError')
+                    elif d == 6:
+                        want = ('raise', 'ValueError')
+                    elif d == 1:
+                        want = ('call', '_from_phi_1D_analytic', None) if (not het and not force) else ('call', '_from_phi_1D_direct', 'het_ascertained')
+                    elif not het and not admix and not force:
+                        want = ('call', '_from_phi_%dD_linalg' % d, None)
+                    elif d == 5:
+                        want = ('raise', 'NotImplementedError')
+                    elif not admix:
+                        want = ('call', '_from_phi_%dD_direct' % d, 'het_ascertained')
+                    else:
+                        want = ('call', '_from_phi_%dD_admix_props' % d, 'admix_props')
+                    for outcome, events, dec in run(fp, args):
+                        calls = impl_calls(events)
+                        if want[0] == 'raise':
+                            if outcome != want or calls:
+                                problems.append('%s: expected %s, found %s%s' % (combo, want[1], outcome[0] + ' ' + mx.show(outcome[1]) if outcome[0] != 'raise' else 'raise ' + outcome[1],
+                                                                                   ' after calling ' + calls[0][1] if calls else ''))
+                            continue
+                        if len(calls) != 1 or calls[0][1] != 'Spectrum.' + want[1]:
+                            problems.append('%s: expected a call of %s, found %s' % (combo, want[1], [c[1] for c in calls] or outcome))
+                            continue
+                        b = bound_args(calls[0][1], calls[0])
+                        ns_ = ['n'] if d == 1 else NS[:d]
+                        exp = {}
+                        if b is None:
+                            problems.append('%s: the arguments of %s do not bind' % (combo, want[1]))
+                            continue
+                        for a in range(d):
+                            exp[ns_[a] if ns_[a] in b else NS[a]] = 'ns[%d]' % a
+                            exp[G[a]] = 'xxs[%d]' % a
+                        exp['phi'] = 'phi'
+                        exp['mask_corners'] = 'mask_corners'
+                        if want[2] == 'het_ascertained':
+                            exp['het_ascertained'] = repr(het)
+                        elif want[2] == 'admix_props':
+                            exp['admix_props'] = 'admix_props'
+                        diff = {k: (b.get(k), v) for k, v in exp.items() if b.get(k) != v}
+                        if diff:
+                            problems.append('%s: %s receives %s' % (combo, want[1], ', '.join('%s=%s (expected %s)' % (k, g, w) for k, (g, w) in sorted(diff.items()))))
+                            continue
+                        call_text = 'Spectrum.%s(%s)' % (want[1], ', '.join([mx.show(a) for a in calls[0][2]] + ['%s=%s' % (k, mx.show(v)) for k, v in calls[0][3].items()]))
+                        if not tail_ok(outcome, events, call_text):
+                            bad_tail.append('ndim=%d %s' % (d, combo))
+        rep.ob('R-EXH', 'Spectrum.from_phi dimensions ndim=%d' % d, not problems,
+               '%d option combinations executed abstractly%s' % (n_combo, '' if not problems else ': ' + '; '.join(problems[:3])), rel, fp.lineno,
+               what='every (dimension, options) combination selects the implementation of that dimension and forwards ns[k], xxs[k], phi, mask_corners and the option in axis order, or raises' if d <= 5
+               else 'more than five dimensions are refused')
+    rep.ob('R-FLOW', 'Spectrum.from_phi labels', not bad_tail, 'pop_ids and extrap_x = xxs[0][1] set on the result before it is returned%s' % ('' if not bad_tail else ': not for ' + '; '.join(bad_tail[:3])),
+           rel, fp.lineno, what='extrap_x and labels recorded on the returning path')
+
+    # ---- from_phi_inbreeding ----
+    bad_tail = []
+    deleg_bad = []
+    for d in range(1, 5):
+        problems = []
+        for het in (None, 'xx'):
+            for admix in (False, True):
+                args = {'phi': mx.Sym('phi', attrs={'ndim': d}), 'ns': mx.Sym('ns', length=d), 'xxs': mx.Sym('xxs', length=d), 'Fs': mx.Sym('Fs', length=d),
+                        'ploidys': mx.Sym('ploidys', length=d), 'mask_corners': mx.Sym('mask_corners'), 'pop_ids': mx.Sym('pop_ids'),
+                        'admix_props': mx.Sym('admix_props', truth=True) if admix else None, 'het_ascertained': het, 'force_direct': mx.Sym('force_direct')}
+                combo = 'het_ascertained=%r admix_props=%s' % (het, 'set' if admix else None)
+                for outcome, events, dec in run(fi, args):
+                    deleg = [e for e in events if e[0] == 'call' and e[1] == 'Spectrum.from_phi']
+                    calls = impl_calls(events)
+                    if deleg:
+                        # the F == 0 path: everything forwarded
+                        b = bound_args('Spectrum.from_phi', deleg[0])
+                        expd = {'phi': 'phi', 'ns': 'ns', 'xxs': 'xxs', 'mask_corners': 'mask_corners', 'pop_ids': 'pop_ids', 'admix_props': 'admix_props' if admix else 'None',
+                                'het_ascertained': repr(het), 'force_direct': 'force_direct'}
+                        if b != expd or calls or outcome[0] != 'return' or not mx.show(outcome[1]).startswith('Spectrum.from_phi('):
+                            deleg_bad.append('ndim=%d %s: %s' % (d, combo, b))
+                        continue
+                    if admix and het:
+                        want = ('raise', 'NotImplementedError')
+                    elif d == 4:
+                        want = ('raise', 'ValueError')
+                    else:
+                        want = ('call', '_from_phi_%dD_direct_inbreeding' % d)
+                    if want[0] == 'raise':
+                        if outcome != want or calls:
+                            problems.append('%s: expected %s, found %s' % (combo, want[1], outcome))
+                        continue
+                    if len(calls) != 1 or calls[0][1] != 'Spectrum.' + want[1]:
+                        problems.append('%s: expected a call of %s, found %s' % (combo, want[1], [c[1] for c in calls] or outcome))
+                        continue
+                    b = bound_args(calls[0][1], calls[0])
+                    if b is None:
+                        problems.append('%s: the arguments of %s do not bind' % (combo, want[1]))
+                        continue
+                    ns_ = ['n'] if d == 1 else NS[:d]
+                    exp = {'phi': 'phi', 'mask_corners': 'mask_corners', 'het_ascertained': repr(het)}
+                    for a in range(d):
+                        exp[ns_[a] if ns_[a] in b else NS[a]] = 'ns[%d]' % a
+                        exp[G[a]] = 'xxs[%d]' % a
+                        fk = 'F' + AX[a] if 'F' + AX[a] in b else 'F'
+                        pk = 'ploidy' + AX[a] if 'ploidy' + AX[a] in b else 'ploidy'
+                        exp[fk] = 'Fs[%d]' % a
+                        exp[pk] = 'ploidys[%d]' % a
+                    diff = {k: (b.get(k), v) for k, v in exp.items() if b.get(k) != v}
+                    if diff:
+                        problems.append('%s: %s receives %s' % (combo, want[1], ', '.join('%s=%s (expected %s)' % (k, g, w) for k, (g, w) in sorted(diff.items()))))
+                        continue
+                    call_text = 'Spectrum.%s(%s)' % (want[1], ', '.join([mx.show(a) for a in calls[0][2]] + ['%s=%s' % (k, mx.show(v)) for k, v in calls[0][3].items()]))
+                    if not tail_ok(outcome, events, call_text):
+                        bad_tail.append('ndim=%d %s' % (d, combo))
+        rep.ob('R-EXH', 'Spectrum.from_phi_inbreeding dimensions ndim=%d' % d, not problems,
+               'option combinations executed abstractly%s' % ('' if not problems else ': ' + '; '.join(problems[:3])), rel, fi.lineno,
+               what='sizes ns[k], grids xxs[k], Fs[k] and ploidys[k] forwarded in axis order to the implementation of that dimension' if d <= 3 else 'more than three dimensions are refused')
+    rep.ob('R-FLOW', 'Spectrum.from_phi_inbreeding labels', not bad_tail, 'pop_ids and extrap_x = xxs[0][1] set on the result before it is returned%s' % ('' if not bad_tail else ': not for ' + '; '.join(bad_tail[:3])),
+           rel, fi.lineno, what='extrap_x and labels recorded on the returning path')
+    rep.ob('R-DOM', 'from_phi_inbreeding F=0', not deleg_bad, 'all F == 0 delegates to from_phi with all options forwarded%s' % ('' if not deleg_bad else ': ' + deleg_bad[0]), rel, fi.lineno,
+           what='F -> 0 reduces to plain sampling')
+    # the F == 0 test itself
+    okz = 'np.all(np.asarray(Fs) == 0)' in ast.unparse(fi) or 'numpy.all(numpy.asarray(Fs) == 0)' in ast.unparse(fi)
+    rep.ob('R-DOM', 'from_phi_inbreeding F=0 test', okz, 'delegation is taken exactly when every F is 0', rel, fi.lineno, what='F -> 0 reduces to plain sampling')
 
 
 def reaching_values(fn, node, name):
